@@ -237,6 +237,18 @@ class P(Property):
             out.append('q.enc ' + fields_str([(r[0], r[1] + b'x')]))
             out.append('q.enc ' + fields_str([(r[0], b'')]))
         out.append('q.enc ' + fields_str(STATIC))
+        # the lookup arms as the CURRENT source has them (a changed or added arm is exercised with its own key,
+        # so that a wrong arm yields a concrete failing input and not only a broken table lemma)
+        try:
+            import gen_static
+            import core
+            facts, _ = gen_static.extract(core.REPO)
+            for n, v, _i in facts['find']:
+                out.append('q.enc ' + fields_str([(n, v)]))
+            for n, _i in facts['find_name']:
+                out.append('q.enc ' + fields_str([(n, b'zz')]))
+        except Exception:
+            pass
         out.append('q.enc ' + fields_str([(b'', b'')]))
         out.append('q.enc ' + fields_str([(b'', b''), (b'', b'')]))
         out.append('q.enc ' + fields_str([(bytes(range(256)), bytes(range(255, -1, -1)))]))
